@@ -4,17 +4,18 @@
     An event (frame) is the list of the pitch OFFSETS ([pitch - min_pitch]) that sound in it.
     [pr_render] follows the loop: [open] is the dict of open notes (pitch offset -> start step, in
     insertion order); per frame, first every open pitch that is not in the frame is closed at this
-    step, then every frame pitch that is not open is opened.  After the loop
-    [final_step = step + (len(open_notes) > 0)] with [step] the LAST INDEX (0 for an empty
-    sequence): open notes end there, and [total_time] is that step.  Notes are emitted when they
-    close (Python creates them when they open; the harness compares bags).
+    step, then every frame pitch that is not open is opened.  Notes are emitted when they close
+    (Python creates them when they open; the harness compares bags).  After the loop the notes
+    still open end at [final_step], and [total_time] is that step:
+    - [legacy = false]: the code AFTER notes/C06-fix-2.diff: [final_step = len(self)];
+    - [legacy = true]: the code before it: [final_step = step + (len(open_notes) > 0)] with [step]
+      the LAST INDEX (0 for an empty sequence) — a sequence whose last frame is silent is rendered
+      one step short, and re-extraction returns one frame less.
+    [Run/C06.v] takes the flag from the harness ([PR_LEGACY] in harness/vt/props/c06.py).
 
-    Oddity kept: a sequence whose last frame is empty gets [final_step = len - 1], so its rendering
-    is one step shorter than the sequence; re-extraction then returns one frame less.  Hence:
-
-    [canonical_pianoroll minp maxp s0 es]: BOOLEAN; [s0 >= 0]; every frame is a strictly ascending
-    list of offsets within [0, maxp - minp] (what [np.where] returns); the last frame is not empty
-    (extraction produces such a sequence whenever [total_time] is the end of the last note).
+    [canonical_pianoroll legacy minp maxp s0 es]: BOOLEAN; [s0 >= 0]; every frame is a strictly
+    ascending list of offsets within [0, maxp - minp] (what [np.where] returns); and, for the legacy
+    code only, the last frame is not empty.
     No proofs here. *)
 From Coq Require Import ZArith List Bool.
 From NS Require Import Base.NoteSeq Gen.G07 Model.FqCommon Model.FqPianoroll Model.RenderCommon.
@@ -44,14 +45,14 @@ Fixpoint pr_render (v i pr minp : Z) (es : list (list Z)) (step : Z) (open : lis
   end.
 
 (** (notes, final absolute step) *)
-Definition pr_to_step_notes (v i pr minp s0 : Z) (es : list (list Z)) : list note * Z :=
+Definition pr_to_step_notes (legacy : bool) (v i pr minp s0 : Z) (es : list (list Z)) : list note * Z :=
   let '(ns, op) := pr_render v i pr minp es s0 [] in
   let last_index := Z.max 0 (len es - 1) in
-  let final := s0 + last_index + (if is_nil op then 0 else 1) in
+  let final := if legacy then s0 + last_index + (if is_nil op then 0 else 1) else s0 + len es in
   (ns ++ map (fun o => rnote (fst o + minp) v i pr false (snd o) final) op, final).
 
-Definition pr_rseq (spq : Z) (ts : tsig) (v i pr minp s0 : Z) (es : list (list Z)) : seq :=
-  let '(ns, final) := pr_to_step_notes v i pr minp s0 es in
+Definition pr_rseq (legacy : bool) (spq : Z) (ts : tsig) (v i pr minp s0 : Z) (es : list (list Z)) : seq :=
+  let '(ns, final) := pr_to_step_notes legacy v i pr minp s0 es in
   rseq spq ts ns [] (max_end final ns).
 
 Fixpoint ascending_from (lo : Z) (l : list Z) : bool :=
@@ -63,6 +64,6 @@ Fixpoint ascending_from (lo : Z) (l : list Z) : bool :=
 Definition valid_frame (width : Z) (f : list Z) : bool :=
   ascending_from 0 f && forallb (fun q => q <? width) f.
 
-Definition canonical_pianoroll (minp maxp s0 : Z) (es : list (list Z)) : bool :=
+Definition canonical_pianoroll (legacy : bool) (minp maxp s0 : Z) (es : list (list Z)) : bool :=
   (0 <=? s0) && forallb (valid_frame (maxp - minp + 1)) es
-  && match rev es with [] => true | f :: _ => negb (is_nil f) end.
+  && (negb legacy || match rev es with [] => true | f :: _ => negb (is_nil f) end).
